@@ -193,6 +193,8 @@ const T = {
   dcThreeArgs: (i) => `const DT${i} = defineComponent((props: { a: string }) => () => null, uo, 'extra');\n__out.k${i} = () => 1;`,
   dcThreeArgsTyped: (i) => `const DV${i} = defineComponent((props: { a: string }, ctx: SetupContext<{ (e: 'x'): void }>) => () => null, uo as any, ...([] as any[]));\n__out.k${i} = () => 1;`,
   dcShadowParam: (i) => `function sh${i}(defineComponent: any) { const Inner = defineComponent((props: { a: string }) => () => null); return Inner; }\n__out.k${i} = () => typeof sh${i};`,
+  dcNoArgs:  (i) => `const DN${i} = (defineComponent as any)();\nlet dn${i};\ndn${i} = defineComponent();\n__out.k${i} = () => 1;`.replace('(defineComponent as any)()', 'defineComponent()'),
+  dcOddArgs: (i) => `const DO2${i} = defineComponent(null, undefined);\nconst DO3${i} = defineComponent(...[]);\nconst DO4${i} = defineComponent(uo);\n__out.k${i} = () => 1;`,
   exportDc:  (i) => `export const ED${i} = defineComponent((props: { a: string }) => null, { name: 'Own' });\n__out.k${i} = () => 1;`,
 };
 const TS_PRELUDE = "import { defineComponent, SetupContext } from 'vue';\nconst uo = __env.bound;\n";
@@ -204,7 +206,7 @@ function itemSrc(item, i) {
 }
 function itemKey(item) { return item.t ? 'T:' + item.t : item.d ? 'D:' + item.d : `${item.k}∘${item.l}`; }
 const T_JSX = new Set(['dcJsxDefault', 'dcJsxDynDefault', 'dcProps', 'dcEmits', 'typedArrow', 'genericArrow', 'asyncTyped']);
-const T_DC = new Set(['dcDupAny', 'dcInterUnknown', 'dcThreeArgs', 'dcThreeArgsTyped', 'dcProps', 'dcIface', 'dcIdentOpts', 'dcEmits', 'dcDefault', 'dcDynDefault', 'dcSpreadDefault', 'dcOwnPropsDynDefault', 'dcJsxDefault', 'dcJsxDynDefault', 'callDc', 'exportDc']);
+const T_DC = new Set(['dcNoArgs', 'dcOddArgs', 'dcDupAny', 'dcInterUnknown', 'dcThreeArgs', 'dcThreeArgsTyped', 'dcProps', 'dcIface', 'dcIdentOpts', 'dcEmits', 'dcDefault', 'dcDynDefault', 'dcSpreadDefault', 'dcOwnPropsDynDefault', 'dcJsxDefault', 'dcJsxDynDefault', 'callDc', 'exportDc']);
 function itemHasJsx(item) { return item.t ? T_JSX.has(item.t) : item.d ? !!D[item.d].jsx : true; }
 function itemAugmentable(item) { return !!item.t && T_DC.has(item.t); }
 
